@@ -905,6 +905,11 @@ func (env *Zlisp) Apply(fun *SexpFunction, args []Sexp) (Sexp, error) {
 		env.restoreControlState(callState)
 		return SexpNull, err
 	}
+	// the call returned to pc -1; put the program counter back, so
+	// that a host calling Apply on an interpreter at rest can go on
+	// evaluating afterwards.
+	env.curfunc = callState.curfunc
+	env.pc = callState.pc
 	return res, nil
 }
 
